@@ -150,8 +150,14 @@ def hadCheck (m : M) : M :=
   let m : M := (s, m.2)
   if c && m.1.cfg.stopAfter then onSt m (·.stop false) else hadReady m
 
+/-- the files did not exist: a new empty bitfield -/
+def hadFreshInstall (m : M) : M :=
+  onSt m fun s => (({ s with bf := some (List.replicate s.n false) }).resetCompletion).markPaddingPieces
+
+/-- a manual verification of files that did not exist ends stopped (fix for finding C04-F4) -/
 def hadFresh (m : M) : M :=
-  hadCheck (onSt m fun s => (({ s with bf := some (List.replicate s.n false) }).resetCompletion).markPaddingPieces)
+  let m := hadFreshInstall m
+  if m.1.doVerify then onSt m fun s => ({ s with doVerify := false }).stop false else hadCheck m
 
 def hadTrust (m : M) (b : List Bool) : M :=
   hadCheck (onSt m fun s => ({ s with done := b }).markPaddingPieces)
